@@ -359,6 +359,7 @@ def c02(tier):
     merge(ck, run_pipeline('C02', tier, gen_grammars('C02', tier, 256 if q else 3000, 'decorated'), cfg))
     merge(ck, common.pmap(pipeline.worker, deep_specs('C02', tier)))
     merge(ck, common.pmap(functor_identity_worker, ['clang', 'gxx0']))
+    merge(ck, common.pmap(api_probe_worker, [(fl, ('functor-less-rule', 'reference-into')) for fl in ('clang', 'gxx0')]))
     ck.cov['rule'] = ('grammars as C01, decorated with mixed value types (two tracked types, long), rules without functor, typed terms, string terms; '
                       'every functor logs (rule, ids of its arguments in order) and returns a fresh id; the log of each parse is compared with the post-order '
                       'evaluation of the reference derivation tree; distinct_nontrivial = distinct accepted (grammar,input) pairs with >= 3 reductions')
@@ -375,6 +376,7 @@ def c09(tier):
     gs = [nonprintable_terms(g, rnd) if (i % 4 == 1 and len(g.terms) <= 12 and not getattr(g, 'lexspec', None)) else g for i, g in enumerate(gs)]
     gs = [backtrack_terms(g, rnd) if (i % 4 == 2 and len(g.terms) <= 12 and not getattr(g, 'lexspec', None)) else g for i, g in enumerate(gs)]
     merge(ck, run_pipeline('C09', tier, gs, cfg))
+    merge(ck, common.pmap(api_probe_worker, [(fl, ('chained-setters', 'successful-non-verbose')) for fl in ('clang', 'gxx0')]))      # options set through chains of setters on a named object
     # one lexeme of the generated lexer of 65534..65537 (and more) bytes, in accepted, syntactically and lexically wrong inputs
     from .grammar import simple
     lg = simple('S->w , | S w ,')
@@ -624,6 +626,7 @@ def c05(tier):
     q = tier == 'quick'
     cfg = {'modes': [0], 'exh_cap': 150 if q else 400, 'exh_len': 5, 'n_rand': 60, 'n_mut': 20, 'long': (30, 100, 400) if q else (100, 400, 1500), 'n_ws': 4, 'n_raw': 2}
     merge(ck, run_pipeline('C05', tier, gen_grammars('C05', tier, 256 if q else 3000, 'precedence'), cfg))
+    merge(ck, common.pmap(api_probe_worker, [(fl, ('named-rule',)) for fl in ('clang', 'gxx0')]))      # named rule objects reused in two grammars
     ck.cov['rule'] = ('expression grammars E->E op E|pre E|E post|(E)|atom with random operator sets, precedence (negative/equal values), associativity and explicit [n]; dangling-else shapes; '
                       'generic grammars with S/R conflicts and random precedence; the dumped table is compared cell by cell with the reference table resolved by the documented rule, '
                       'operator chains up to hundreds of operators are parsed and the logged derivation is compared with the reference and, for pure binary grammars, with an independent '
@@ -655,6 +658,7 @@ def c13(tier):
     q = tier == 'quick'
     cfg = {'modes': [0, 20, 21, 22, 23, 24, 25, 26, 27, 28, 29, 30, 31, 32, 33], 'exh_cap': 80 if q else 200, 'exh_len': 4, 'n_rand': 40, 'n_mut': 30, 'long': (30, 300) if q else (100, 1000), 'n_ws': 4, 'n_raw': 2}
     merge(ck, run_pipeline('C13', tier, gen_grammars('C13', tier, 128 if q else 1500, 'context'), cfg))
+    merge(ck, common.pmap(api_probe_worker, [(fl, ('reference-into',)) for fl in ('clang', 'gxx0')]))      # the library never moves out of the caller's context
     ck.cov['rule'] = ('grammars mixing >= and >>= functors (and some with none); context categories lvalue, const lvalue, rvalue temporary, move-only lvalue, named objects passed with std::move, through the overloads with and without parse_options / stream; each contextual functor logs whether it '
                       'received the caller\'s object (address), its constness and the number of calls the object has seen, and bumps it; after the call the caller\'s counter must equal the number of '
                       'contextual reductions in the reference derivation; context copy/move counters must stay 0; parse and context_parse are compared on grammars that ignore the context; '
@@ -701,6 +705,8 @@ def c19(tier):
     merge(ck, [out])
     out2, n2 = hpc.run('gxx0')      # the same enumeration compiled by g++ (implicit move on return differs between compilers in C++17)
     out2['distinct'] = []; merge(ck, [out2]); n += n2
+    for o_ in common.pmap(api_probe_worker, [(fl, ('named-val',)) for fl in ('clang', 'gxx0')]) + common.pmap(functor_identity_worker, ['clang']):
+        n += o_['counts'].get('evaluations', 0); merge(ck, [o_])      # val(v) passed as a named object; helper objects are copied into the parser
     ck.cov['exhaustive'] = (ck.cov.get('evaluations', 0) == n)
     ck.cov['cases_in_space'] = n
     ck.cov['rule'] = ('complete enumeration, executed under ASan+UBSan: _e1.._e9 and construct<T,I> for every arity 1..9 and position with lvalue, rvalue and move-only arguments; push_back<C,A> and '
@@ -734,6 +740,29 @@ def functor_identity_worker(flavour):
         out['incon'].append('functor identity worker: ' + traceback.format_exc()[-800:])
     return out
 
+def api_probe_worker(arg):
+    """harness/api_probes.cpp: fixed probes of documented usage patterns the generators do not produce; arg = (flavour, prefixes of the probes that belong to the property)"""
+    flavour, wanted = arg
+    out = {'counts': collections.Counter(), 'viol': [], 'samples': [], 'distinct': [], 'incon': []}
+    try:
+        src = open(os.path.join(common.HARNESS, 'api_probes.cpp')).read()
+        exe = common.build(src, flavour, name='apip')
+        rc, so, se, to = common.run(exe, [], timeout=120)
+        text = so.decode('latin-1')
+        if 'END' not in text:
+            out['viol'].append((['site:api-probes@crash'], 'API probe program (%s build) aborted rc=%s: %s' % (flavour, rc, se.decode('latin-1', 'replace')[-300:]), {})); return out
+        for ln in text.split('\n'):
+            p_ = ln.split(' ', 3)
+            if len(p_) < 3 or p_[0] != 'P' or not any(p_[1].startswith(w) for w in wanted): continue
+            out['counts']['evaluations'] += 1; out['counts']['api_probes_observed'] += 1
+            out['distinct'].append(common.sha(p_[1], flavour)[:12])
+            if p_[2] != '1': out['viol'].append((['site:api-probe@' + p_[1]], 'API probe (%s build) failed: %s %s' % (flavour, p_[1].replace('-', ' '), p_[3] if len(p_) > 3 else ''), {}))
+    except common.BuildError as e:
+        out['viol'].append((['site:api-probes@compile'], 'API probe program does not compile (%s): %s' % (flavour, e.diag[:400]), {}))
+    except Exception:
+        out['incon'].append('api probe worker: ' + traceback.format_exc()[-800:])
+    return out
+
 def long_lexeme_specs(prop, tier):
     """a custom lexer may return one lexeme of any length: single terms of 65535..200000 bytes, followed by more input"""
     from .grammar import simple
@@ -757,6 +786,7 @@ def c18(tier):
     q = tier == 'quick'
     cfg = {'modes': [0, 1, 3, 4, 7, 8, 9], 'exh_cap': 150 if q else 400, 'exh_len': 4, 'n_rand': 40, 'n_mut': 60, 'long': (30, 120) if q else (100, 600), 'n_ws': 60, 'ws': 0.5, 'n_raw': 24}
     merge(ck, run_pipeline('C18', tier, gen_grammars('C18', tier, 128 if q else 1500, 'customlexer'), cfg))
+    merge(ck, common.pmap(functor_identity_worker, ['clang', 'gxx0']))      # the custom term's own functor object is the one that converts the slice
     merge(ck, common.pmap(pipeline.worker, long_lexeme_specs('C18', tier)))
     ck.cov['rule'] = ('grammars over custom terms with use_lexer<scripted lexer>: the lexer answers (term index, length) as a function of the first byte (lengths 1..4, so not a longest match; '
                       'unmapped bytes fail; whitespace bytes may be terms) and logs every call (offset, remaining length, source point it was given, answer); the call log interleaved with the '
@@ -890,6 +920,7 @@ def c07(tier):
     longs = [b'a' * 1021, b'a' * 1023, b'ab' * 760, b'a' * 1100 + b'?', b'a' * 1200 + b' ' + b'b' * 900]
     specs.append({'seed': 1, 'grammars': [lg.to_json()], 'n_inputs': 0, 'explicit_inputs': [[d.hex() for d in longs]], 'long_literals': True})
     merge(ck, common.pmap(cec.worker, specs))
+    merge(ck, common.pmap(functor_identity_worker, ['clang', 'gxx0']))      # results may refer to the state of the functor objects stored in the parser: those objects are the ones called, in every construction mode
     ck.cov['rule'] = ('generated programs with literal-typed grammars (char/string terms, precedence, error rules, contextual functors): each input (accepted, syntactically wrong, lexically wrong; '
                       'four whitespace option sets) is parsed in a constexpr initializer compiled by g++ and by clang++ (the constant evaluators execute the real parse path and reject undefined '
                       'behaviour), and at run time through cstring_buffer, string_buffer, string_view_buffer and a user buffer, with the parser object built at compile time and at run time; all 9 results '
